@@ -156,7 +156,15 @@ func (s *stubHandler) Generate(*csr.ReqParam) ([]csr.AgentKey, error) {
 			if (i+s.nCSRs)%2 == 0 {
 				kid = fmt.Sprintf("k%d", i)
 			}
-			sk.csrs = append(sk.csrs, &proto.SSHCertificateSigningRequest{KeyId: kid, KeyMeta: &proto.KeyMeta{Identifier: fmt.Sprintf("slot-%d", j)}, Principals: []string{"p", fmt.Sprintf("p%d", j)}, Validity: uint64(3600 + j), PublicKey: string(ssh.MarshalAuthorizedKey(ak.PublicKey()))})
+			req := &proto.SSHCertificateSigningRequest{KeyId: kid, KeyMeta: &proto.KeyMeta{Identifier: fmt.Sprintf("slot-%d", j)}, Principals: []string{"p", fmt.Sprintf("p%d", j)}, Validity: uint64(3600 + j), PublicKey: string(ssh.MarshalAuthorizedKey(ak.PublicKey()))}
+			if (i+j+s.nCSRs)%2 == 1 {
+				// optional members left out, as a handler for a single-slot CA may: no key metadata, no extensions, no principals
+				req.KeyMeta, req.Extensions = nil, nil
+				if j%2 == 1 {
+					req.Principals = nil
+				}
+			}
+			sk.csrs = append(sk.csrs, req)
 		}
 		out = append(out, sk)
 	}
@@ -192,6 +200,8 @@ type shape struct {
 	// Warm: an earlier successful run on the same agent left a generation of certificates,
 	// so that delivery has to list and remove them first (more agent operations to fault)
 	Warm bool `json:"earlier_generation_present"`
+	// PlainFirst: every reply of the CA starts with a plain public key (its own key line) before the certificates
+	PlainFirst bool `json:"ca_reply_starts_with_a_plain_key,omitempty"`
 }
 
 type faultRec struct {
@@ -213,7 +223,7 @@ type env struct {
 func build(e *env, sh shape) (*wire.Agent, *tracker, *gsrig.Signer, func(), error) {
 	ag := wire.New()
 	ag.Keyring.Add(agent.AddedKey{PrivateKey: e.user.Priv, Comment: "user"})
-	signer := &gsrig.Signer{Agent: ag, NCerts: sh.NCerts}
+	signer := &gsrig.Signer{Agent: ag, NCerts: sh.NCerts, NonCert: sh.PlainFirst, NonCertPos: 1}
 	var inner gensign.Handler
 	closeFn := func() { ag.Close() }
 	if sh.Real {
@@ -268,6 +278,7 @@ func main() {
 			shapes = append(shapes, shape{Real: true, Keys: 1, CSRs: 1, NCerts: nc, Warm: true})
 		}
 		shapes = append(shapes, shape{Keys: 2, CSRs: 1, NCerts: 2, Warm: true}, shape{Keys: 1, CSRs: 2, NCerts: 1, Warm: true})
+		shapes = append(shapes, shape{Real: true, Keys: 1, CSRs: 1, NCerts: 2, PlainFirst: true}, shape{Keys: 1, CSRs: 2, NCerts: 1, PlainFirst: true})
 		maxK := r.Pick(2, 3)
 		for k := 1; k <= maxK; k++ {
 			for cs := 1; cs <= maxK; cs++ {
